@@ -1578,7 +1578,7 @@ def _gb_new(it, c, a):
 
 @model('GreenNodeBuilder::start_node')
 def _gb_start(it, c, a):
-    b = deref(a[0]); b.log.append(('start', a[1])); b.depth += 1; return UNIT
+    b = deref(a[0]); b.log.append(('start', a[1])); b.depth += 1; b.flat.append(0); return UNIT
 
 
 @model('GreenNodeBuilder::finish_node')
@@ -1586,7 +1586,7 @@ def _gb_finish_node(it, c, a):
     b = deref(a[0])
     if b.depth == 0:
         raise Panic('rowan-builder', 'finish_node without open node (unwrap on None)', it.stack)
-    b.depth -= 1; b.log.append(('finish',))
+    b.depth -= 1; b.log.append(('finish',)); b.flat.pop(); b.flat[-1] += 1
     if b.depth == 0:
         b.roots += 1
     return UNIT
@@ -1594,7 +1594,7 @@ def _gb_finish_node(it, c, a):
 
 @model('GreenNodeBuilder::token')
 def _gb_token(it, c, a):
-    b = deref(a[0]); b.log.append(('token', a[1], a[2]))
+    b = deref(a[0]); b.log.append(('token', a[1], a[2])); b.flat[-1] += 1
     if b.depth == 0:
         b.roots += 1
     return UNIT
@@ -1602,9 +1602,25 @@ def _gb_token(it, c, a):
 
 @model('GreenNodeBuilder::finish')
 def _gb_finish(it, c, a):
+    """rowan 0.15: `assert_eq!(self.children.len(), 1)` over the FLAT children vector -- nodes still open are NOT checked.
+    With open nodes and exactly one flat child, that child is returned as the root (the unmatched start_node calls are lost)."""
     b = deref(a[0])
-    if b.depth != 0 or b.roots != 1:
-        raise Panic('rowan-builder', 'finish: assert_eq!(self.children.len(), 1) (depth %d roots %d)' % (b.depth, b.roots), it.stack)
+    n = sum(b.flat)
+    if n != 1:
+        raise Panic('rowan-builder', 'finish: assert_eq!(self.children.len(), 1): %d flat children (open nodes %d, finished roots %d)' % (n, b.depth, b.roots), it.stack)
+    if b.depth:
+        b.open_at_finish = b.depth
+        keep = [True] * len(b.log); st = []
+        for i, e in enumerate(b.log):
+            if e[0] == 'start':
+                st.append(i)
+            elif e[0] == 'finish':
+                st.pop()
+        for i in st:
+            keep[i] = False
+        b.log = [e for i, e in enumerate(b.log) if keep[i]]
+    if b.log and b.log[0][0] == 'token':
+        raise Panic('rowan-builder', 'finish: the single child is a token (panic!())', it.stack)
     return Agg('struct', 'GreenNode', None, [b])
 
 
@@ -1674,6 +1690,19 @@ def _lx_end(it, c, a):
 @model('<Lexer as LexerInternal>::trivia')
 def _lx_trivia(it, c, a):
     lx = _lx(a); lx.start = lx.end; return UNIT
+
+
+@model('logos::skip')
+def _logos_skip(it, c, a):
+    return Agg('struct', 'Skip', None, [])
+
+
+@model('<Skip as CallbackResult>::construct')
+def _logos_skip_construct(it, c, a):
+    # logos 0.12 internal.rs: `lex.trivia(); T::lex(lex);`
+    lx = deref(a[2]); lx.start = lx.end
+    it.run_body(it.logos_lex, [a[2]])
+    return UNIT
 
 
 @model('<Lexer as LexerInternal>::error')
